@@ -950,6 +950,10 @@ def exponential_binning(
             raise ValueError("Cannot guess the range without data.")
         range = (np.log10(data.min()), np.log10(data.max()))
     log_width = (range[1] - range[0]) / bin_count
+    if not log_width > 0:
+        raise ValueError(
+            f"Exponential bins require min < max, got {10.0 ** range[0]} and {10.0 ** range[1]}."
+        )
     return ExponentialBinning(
         log_min=range[0], log_width=log_width, bin_count=bin_count, **kwargs
     )
